@@ -2,6 +2,7 @@ package props
 
 import (
 	"fmt"
+	"io"
 	"sort"
 	"strings"
 
@@ -274,8 +275,71 @@ func opsOf(e *fexpr) string {
 	return strings.Join(ops, "+")
 }
 
+// importedFeatures: if-feature inside a grouping of an imported module follows that module's features under
+// the same allow / deny configuration.
+func (p c11) importedFeatures(c *core.Ctx) {
+	imp := "module imp { namespace \"urn:imp\"; prefix imp; revision 2020-01-01; feature x; feature y;\n" +
+		"  grouping g { leaf gx { if-feature x; type string; } leaf gnx { if-feature \"not x\"; type string; } leaf gy { if-feature \"x or y\"; type string; } leaf gplain { type string; } } }\n"
+	main := "module m { namespace \"urn:m\"; prefix m; import imp { prefix imp; } revision 2020-01-01; feature a;\n" +
+		"  uses imp:g; leaf ga { if-feature a; type string; } }\n"
+	opener := func(name, ext string) (io.Reader, error) {
+		switch name {
+		case "imp":
+			return strings.NewReader(imp), nil
+		case "m":
+			return strings.NewReader(main), nil
+		}
+		return nil, nil
+	}
+	names := []string{"a", "x", "y"}
+	for assign := 0; assign < 8; assign++ {
+		for style := 0; style < 2; style++ {
+			var on, off []string
+			onm := map[string]bool{}
+			for i, n := range names {
+				if assign&(1<<i) != 0 {
+					on = append(on, n)
+					onm[n] = true
+				} else {
+					off = append(off, n)
+				}
+			}
+			opts := parser.Options{Features: meta.FeaturesOn(on)}
+			sname := "allow-list"
+			if style == 1 {
+				opts = parser.Options{Features: meta.FeaturesOff(off)}
+				sname = "deny-list"
+			}
+			c.Eval()
+			var m *meta.Module
+			var err error
+			if c.Guard("load imported features", func() { m, err = parser.LoadModuleWithOptions(opener, "m", opts) }) {
+				continue
+			}
+			if err != nil {
+				c.Violate("imported/load-error", "%v", err)
+				continue
+			}
+			present := map[string]bool{}
+			for _, d := range m.DataDefinitions() {
+				present[d.Ident()] = true
+			}
+			want := map[string]bool{"gx": onm["x"], "gnx": !onm["x"], "gy": onm["x"] || onm["y"], "gplain": true, "ga": onm["a"]}
+			c.Shape("imported/%03b/%s", assign, sname)
+			for n, w := range want {
+				if present[n] != w {
+					c.Violate("imported/"+sname, "features a,x,y=%03b (%s): %s present=%v, want %v (x,y are features of the imported module that defines the grouping)", assign, sname, n, present[n], w)
+				}
+			}
+		}
+	}
+}
+
 // kinds: every guardable statement kind.
 func (p c11) kinds(c *core.Ctx, k int) {
+	if k%12 == 0 {
+		p.importedFeatures(c)
+	}
 	exprs := allExprs(2)
 	e := exprs[(k*7)%len(exprs)]
 	ex := e.render(k % 3)
@@ -478,6 +542,8 @@ func (p c11) deviations(c *core.Ctx, k int) {
 		{"delete/unique", `deviation "/li" { deviate delete { unique "u1"; } }`, []string{".children.1.unique"}, false},
 		{"delete/must-missing", `deviation "/le" { deviate delete { must "zz"; } }`, nil, true},
 		{"target-missing", `deviation "/nope" { deviate not-supported; }`, nil, true},
+		{"multi/add+replace+delete", `deviation "/le" { deviate add { must "c > 3"; } deviate replace { units "cm"; } deviate delete { default "5"; } }`, []string{".children.2.musts", ".children.2.units", ".children.2.default", ".children.2.has-default"}, false},
+		{"multi/replace+delete", `deviation "/li" { deviate replace { max-elements 3; } deviate delete { unique "u1"; } }`, []string{".children.1.max", ".children.1.unique"}, false},
 	}
 	d := devs[k%len(devs)]
 	hdr := "module m { namespace \"urn:m\"; prefix m; revision 2020-01-01;\n"
@@ -575,6 +641,17 @@ func (p c11) deviations(c *core.Ctx, k int) {
 		}
 		if n != 1 {
 			c.Violate("deviation/add/must/count", "deviate add { must } left %d must statements on the target, want 1\n%s", n, d.text)
+		}
+	case "multi/add+replace+delete":
+		p.want(c, d.name, with, ".children.2.units", "cm")
+		p.want(c, d.name, with, ".children.2.has-default", "false")
+		if with[".children.2.musts.2.expr"] != "c > 3" {
+			c.Violate("deviation/"+d.name+"/wrong-value", "the added must is missing: %v", with[".children.2.musts.2.expr"])
+		}
+	case "multi/replace+delete":
+		p.want(c, d.name, with, ".children.1.max", "3")
+		if _, still := with[".children.1.unique.0.0"]; still {
+			c.Violate("deviation/"+d.name+"/wrong-value", "unique u1 was not deleted")
 		}
 	case "delete/must":
 		n := 0
